@@ -201,3 +201,106 @@ Proof. cbv zeta. split; [|split].
   - repeat constructor; discriminate.
   - vm_compute. reflexivity.
   - vm_compute. reflexivity. Qed.
+
+(* ================= review gaps: acceptance, determinism, Crystals totality
+   (proofs in Proofs/EnsemblesMore.v) ================================== *)
+From TFL Require Import Proofs.EnsemblesMore.
+
+(* RTL: every configuration with at least one input and enough slots is
+   accepted, for every lattice count / rank and every random source
+   (converse of C17_rtl_accepts; no hypothesis on the shuffles). *)
+Theorem C17_rtl_accepts_enough_slots : forall sh1 sh2 cfg,
+  0 < n_inputs (c_input cfg) -> n_inputs (c_input cfg) <= c_num cfg * c_rank cfg ->
+  exists s, rtl_structure cfg sh1 sh2 = Some s.
+Proof. exact rtl_accepts_enough_slots. Qed.
+Print Assumptions C17_rtl_accepts_enough_slots.
+
+(* RTL: rejected exactly when there is no input or there are too few slots *)
+Theorem C17_rtl_rejects_iff : forall sh1 sh2 cfg,
+  rtl_structure cfg sh1 sh2 = None <->
+  (n_inputs (c_input cfg) = 0 \/ c_num cfg * c_rank cfg < n_inputs (c_input cfg)).
+Proof. exact rtl_rejects_iff. Qed.
+Print Assumptions C17_rtl_rejects_iff.
+
+Example C17_rtl_accepts_example :
+  let cfg := mkcfg 3 2 true 10 (mkin (Some (Multi [2])) (Some (Single 2))) in
+  0 < n_inputs (c_input cfg) /\ n_inputs (c_input cfg) <= c_num cfg * c_rank cfg.
+Proof. cbv zeta. cbn. lia. Qed.
+
+(* random ensemble: the result is a function of the values np.random.choice
+   returns on the calls the code can make (a feature f < n with a non-empty
+   candidate list; a fill-up draw of size <= number of candidates); nothing
+   else of the random source is used. *)
+Theorem C17_random_deterministic : forall ch1 ch2 ch1' ch2' n num rank,
+  (forall f nf, f < n -> nf <> [] -> ch1 f nf = ch1' f nf) ->
+  (forall k av sz, sz <= length av -> ch2 k av sz = ch2' k av sz) ->
+  random_ensemble ch1 ch2 n num rank = random_ensemble ch1' ch2' n num rank.
+Proof. exact random_deterministic. Qed.
+Print Assumptions C17_random_deterministic.
+
+(* all-pairs cover: a function of the one permutation np.random.shuffle
+   produces for the list of feature pairs *)
+Theorem C17_cover_deterministic : forall sh sh' n rank,
+  sh (pairs n) = sh' (pairs n) ->
+  pairs_cover sh n rank = pairs_cover sh' n rank /\ prefitting_cover sh n rank = prefitting_cover sh' n rank.
+Proof. exact cover_deterministic. Qed.
+Print Assumptions C17_cover_deterministic.
+
+(* Crystals: no random source; the use allocation and the ensemble are a
+   function of the feature count, lattice count, rank, swap bound and the two
+   prefitting score tables. *)
+Theorem C17_crystals_deterministic : forall c c',
+  k_n c = k_n c' -> k_num c = k_num c' -> k_rank c = k_rank c' -> k_max_swaps c = k_max_swaps c' ->
+  k_T c = k_T c' -> k_lap c = k_lap c' ->
+  crystal_uses c = crystal_uses c' /\ crystal_lattices c = crystal_lattices c'.
+Proof. exact crystals_deterministic. Qed.
+Print Assumptions C17_crystals_deterministic.
+
+(* Crystals use allocation: for STRICTLY POSITIVE importance scores (the
+   hypothesis that excludes known finding D13), enough slots and
+   lattice_rank <= number of features, the allocation neither raises nor
+   fails `assert np.sum(features_uses) == total_feature_use`: the uses sum to
+   num_lattices * lattice_rank (the cap num_lattices - 1 never strands
+   uses, because np.argsort(-importance) visits features in descending
+   importance, so each feature's share of the rest is at least 1/remaining). *)
+Theorem C17_crystals_allocation_total : forall c,
+  (forall f, f < k_n c -> (0 < nth f (importance (k_n c) (k_T c) (k_lap c)) 0)%Q) ->
+  k_n c <= k_num c * k_rank c -> k_rank c <= k_n c ->
+  exists uses, crystal_uses c = Some uses /\ zsum uses = Z.of_nat (k_num c * k_rank c) /\
+               length uses = k_n c.
+Proof. exact crystal_uses_total. Qed.
+Print Assumptions C17_crystals_allocation_total.
+
+(* Crystals without the "returned" hypothesis: with non-negative torsion
+   scores as well, _get_final_crystal_lattices returns num_lattices lattices
+   of exactly lattice_rank features, and every feature is in one of them. *)
+Theorem C17_crystals_positive_total : forall c,
+  Forall (Forall (fun x => (0 <= x)%Q)) (k_T c) ->
+  (forall f, f < k_n c -> (0 < nth f (importance (k_n c) (k_T c) (k_lap c)) 0)%Q) ->
+  k_n c <= k_num c * k_rank c -> k_rank c <= k_n c ->
+  exists lats, crystal_lattices c = Some lats /\ length lats = k_num c /\
+    (forall l, In l lats -> length l = k_rank c) /\
+    (forall f, f < k_n c -> exists l, In l lats /\ In f l).
+Proof. exact crystals_positive_closed. Qed.
+Print Assumptions C17_crystals_positive_total.
+
+(* strictly positive laplacians and non-negative torsions are enough for
+   strictly positive importance *)
+Theorem C17_crystals_importance_positive : forall n T lap,
+  Forall (Forall (fun x => (0 <= x)%Q)) T -> (forall f, f < n -> (0 < nth f lap 0)%Q) ->
+  forall f, f < n -> (0 < nth f (importance n T lap) 0)%Q.
+Proof. exact importance_pos. Qed.
+Print Assumptions C17_crystals_importance_positive.
+
+(* the hypotheses of the two totality theorems are satisfiable *)
+Example C17_crystals_positive_example :
+  let c := mkcr 3 2 2 1000 [[0; 1; 1#2]; [1; 0; 1#4]; [1#2; 1#4; 0]]%Q [1#4; 1#8; 1#8]%Q in
+  Forall (Forall (fun x => (0 <= x)%Q)) (k_T c) /\
+  (forall f, f < k_n c -> (0 < nth f (importance (k_n c) (k_T c) (k_lap c)) 0)%Q) /\
+  k_n c <= k_num c * k_rank c /\ k_rank c <= k_n c.
+Proof. exact crystals_positive_example. Qed.
+
+(* hypotheses of the cover theorems are satisfiable *)
+Example C17_cover_example :
+  pair_perm_oracle (fun l => l) /\ pairs_cover (fun l => l) 4 2 = [[0; 1]; [0; 2]; [0; 3]; [1; 2]; [1; 3]; [2; 3]].
+Proof. split. intros l; apply Permutation_refl. vm_compute. reflexivity. Qed.
